@@ -59,7 +59,7 @@ def main():
         ],
         "checks": checks,
         "not_applicable": na,
-        "notes": "exit codes: 0 holds within bounds (KNOWN-FINDING lines for listed findings), 1 VIOLATION (replayed), 2 inconclusive (timeout / out of memory / vacuity / non-reproducing counterexample). Known findings: /verif/known_findings.json.",
+        "notes": "exit codes: 0 = everything explored holds within the stated bounds (KNOWN-FINDING lines for listed findings; queries that ran out of their time budget are printed as NOT-EXPLORED and listed in the evidence, never counted as held); 1 = VIOLATION (counterexample replayed against the real build); 2 = inconclusive (nothing decided, out of memory, vacuous harness, encoding error, translator self-check mismatch, counterexample that does not reproduce natively). Known findings and the record of repaired defects: /verif/known_findings.json. Design, bounds, findings and seeded-defect results: /verif/DESIGN.md section 8.",
     }
     json.dump(m, open(os.path.join(HERE, "MANIFEST.json"), "w"), indent=1)
     print("MANIFEST.json: %d checks, %d not applicable/pending" % (len(checks), len(na)))
